@@ -81,11 +81,9 @@ def run(ctx):
     wd = vlib.scratch("c14-%s" % ctx.tier)
     subst = {}
     if quick:
-        # quick: one rotation, one pcapng head (both chosen by the seed), one freely chosen packet (all capture-length
-        # sequences up to 3 packets are still enumerated with rotated comments)
+        # quick: one rotation and one pcapng head, both chosen by the seed
         subst = {r"VSet = \{[^}]*\}": "VSet = {%d}" % (ctx.seed % 5),
-                 r"HeadSet = \{[^}]*\}": "HeadSet = {%d}" % (1 + ctx.seed % 5),
-                 r"MaxPk = \d+": "MaxPk = 1"}
+                 r"HeadSet = \{[^}]*\}": "HeadSet = {%d}" % (1 + ctx.seed % 5)}
     g = vlib.tlc("PcapFileGen", workdir=os.path.join(wd, "gen"), timeout=3000, workers=8, cfg_subst=subst or None)
     if g.violated:
         raise vlib.Infra("PcapFileGen.tla: %s violated (PcapFile.tla rejects the ideal reader / accepts the eager one)" % g.violated)
@@ -95,11 +93,11 @@ def run(ctx):
     log("[C14] generated %d scenarios (%d states) in %.1fs" % (len(scen), g.distinct, g.wall))
     rnd = random.Random(ctx.seed)
     if quick:
-        keep = scen[:12] + rnd.sample(scen[12:], min(len(scen) - 12, 500))
+        keep = scen[:12] + rnd.sample(scen[12:], min(len(scen) - 12, 1200))
     else:
         keep = scen
     nrand = 6 if quick else 40
-    parts = 1 if quick else 8
+    parts = 3 if quick else 8
     per = (len(keep) + parts - 1) // parts
     total_sc = total_ev = tstates = nbad = 0
     samples, good = [], None
@@ -115,7 +113,7 @@ def run(ctx):
         pd = os.path.join(wd, "p%d" % pi)
         os.makedirs(pd, exist_ok=True)
         tp = os.path.join(pd, "trace.ndjson")
-        args = [binp, "-mode", "rt", "-scenarios", sp, "-trace", tp, "-seed", str(ctx.seed + pi), "-workers", "4" if not quick else "8",
+        args = [binp, "-mode", "rt", "-scenarios", sp, "-trace", tp, "-seed", str(ctx.seed + pi), "-workers", "4",
                 "-rand", str(nrand if pi == 0 else 0)]
         p = vlib.run(args, timeout=3000, ok_codes=(0, 3))
         st = json.loads(p.stdout.strip().splitlines()[-1])
@@ -168,7 +166,7 @@ def run(ctx):
     rc = V.finish()
     assumptions = ["a crash of the writing process is modelled as a prefix of the flushed byte stream; torn writes inside the OS are out of scope",
                    "timestamps: seconds < 2^31 (TLC integers are 32 bit); pcapng writer resolution is fixed to nanoseconds by the library",
-                   "quick tier replays the scenarios of one rotation / one pcapng head chosen by the seed (sampled to ~500); thorough replays all"]
+                   "quick tier replays the scenarios of one rotation / one pcapng head chosen by the seed (sampled to ~1200); thorough replays all"]
     if not libpcap_used:
         assumptions.append("libpcap clause SKIPPED: /repo/pcap (cgo, libpcap headers) did not build in this environment")
     else:
